@@ -568,6 +568,17 @@ def run_c02(tier, seed):
         cfgs = [({"masters": 3, "mode": "step", "rawLog": True}, scs, "c02")]
         # the same with a backend password and replica reads (AUTH / READONLY handshakes on the backend connections)
         sub = [s for x, s in enumerate(scs) if x % (4 if q else 2) == 0]
+        # the acknowledgements of the AUTH / READONLY handshake of a new replica connection arrive in separate reads
+        for j, rep in enumerate([resp_bulk(b"after-handshake"), b"-LOADING Redis is loading the dataset in memory\r\n", b":7\r\n"]):
+            sub.append({"id": "c02-handshake-split-%d" % j, "role": "", "steps": [
+                {"stim": [st(op="hshold", count=1)], "settle": False, "noIter": True},
+                step([st(op="send", c="c1", reqs=[req(["GET", "@0"])])]), step([]),
+                step([st(op="hsrelease", n="r1")]), step([]),
+                step([st(op="send", c="c2", reqs=[req(["GET", "@0"])])]),
+                step([st(op="answer", n="r1", kind="raw", hex=rep.hex())]),
+                step([st(op="answer", n="r1", kind="raw", hex=resp_bulk(b"second").hex())]),
+                {"stim": [st(op="hshold", count=0)], "settle": False, "noIter": True},
+                step([st(op="hsrelease", n=n) for n in ("r1", "r2", "r3")]), okdrain]})
         cfgs.append(({"masters": 3, "replicas": 1, "password": "pw", "mode": "step", "rawLog": True}, sub, "c02pw"))
         # back-pressure on a backend connection and a partially draining slow reader (8 KB socket buffers)
         cfgs.append((dict(BP_CFG), backpressure_scenarios(q), "c02bp"))
